@@ -167,7 +167,7 @@ def run(ctx):
                         r2.violate("C03|R2|%s|%s" % (fn.def_, e), "%s builds an error with %s instead of 416 Range Not Satisfiable" % (fn.def_, e), s["span"]["file"], s["span"]["line"], fn.def_)
 
     # R3 206 only with a Range header
-    r3 = chk.rule("R3-206-only-with-range-header", "the 206 entry is selected only where 'the request has a Range header' is true", floor=2)
+    r3 = chk.rule("R3-206-only-with-range-header", "the 206 entry is selected only where 'the request has a Range header' is true", floor=1)
     for n in sorted(G.reachable(R.connection_roots())):
         fn = F.fns.get(n)
         if fn is None or fn.crate != "rws" or fn.kind == "Promoted":
@@ -176,7 +176,7 @@ def run(ctx):
         c_ = cfg_of(fn)
         for bid in c_.live_blocks():
             for s in c_.blocks[bid]["stmts"]:
-                if s["k"] == "assign" and not s["place"]["p"] and s["rv"]["k"] in ("use", "ref") and status_entry_of(d_.val_rvalue(s["rv"], 0, bid)) == "const:n206_partial_content" and fn.local_name(s["place"]["l"]):
+                if s["k"] == "assign" and not s["place"]["p"] and s["rv"]["k"] in ("use", "ref") and status_entry_of(d_.val_rvalue(s["rv"], 0, bid)) == "const:n206_partial_content" and (fn.local_name(s["place"]["l"]) or (s["place"]["l"] == 0 and (fn.local_ty(0) or "").endswith("StatusCodeReasonPhrase"))):
                     tests = tests_dominating(fn, bid)
                     from .parse_common import deep_strings
                     ok = any(c.endswith("::is_some") and tr is True and "Range" in deep_strings(d_, v) and any(x.endswith("::get_header") for x in deep_strings(d_, v)) for c, tr, v, _ in tests)
